@@ -262,6 +262,24 @@ ArmMisc(w) ==
        [] op2 = 3 /\ op = 1 -> [k |-> "blxr", enc |-> "BLX_r_A1", m |-> m, unp |-> m = 15 \/ ~sbo]
        [] OTHER -> Unspec("arm-misc")
 
+\* A5.2.10 synchronization primitives (ARM): LDREX/STREX and the byte / halfword / doubleword forms (ARMv6 / v6K on).
+\* SWP / SWPB are not specified (the emulator prints "deprecated" and treats them as UNDEFINED).
+ExSfx(size) == CASE size = 4 -> "" [] size = 8 -> "D" [] size = 1 -> "B" [] OTHER -> "H"
+ArmSync(w, dx) ==
+  LET op == Slice(w, 23, 20)  n == Slice(w, 19, 16)  r12 == Slice(w, 15, 12)  r0 == Slice(w, 3, 0)
+      sbo == Slice(w, 11, 8) = 15
+      size == CASE op \div 2 = 4 -> 4 [] op \div 2 = 5 -> 8 [] op \div 2 = 6 -> 1 [] OTHER -> 2
+  IN IF dx.arch < 6 THEN Unspec("arm-sync-pre-v6")
+     ELSE IF op \in {0, 4} THEN Unspec("arm-swp")
+     ELSE IF op < 8 THEN Undef
+     ELSE IF op % 2 = 1
+     THEN [k |-> "ldrex", enc |-> "LDREX" \o ExSfx(size) \o "_A1", size |-> size, t |-> r12, t2 |-> (r12 + 1) % 16, n |-> n,
+           imm |-> Zero, unp |-> n = 15 \/ r12 = 15 \/ ~sbo \/ r0 # 15 \/ (size = 8 /\ (r12 % 2 = 1 \/ r12 = 14))]
+     ELSE [k |-> "strex", enc |-> "STREX" \o ExSfx(size) \o "_A1", size |-> size, d |-> r12, t |-> r0, t2 |-> (r0 + 1) % 16,
+           n |-> n, imm |-> Zero,
+           unp |-> r12 = 15 \/ n = 15 \/ r0 = 15 \/ r12 = n \/ r12 = r0 \/ ~sbo \/
+                   (size = 8 /\ (r0 % 2 = 1 \/ r0 = 14 \/ r12 = r0 + 1))]
+
 ArmDPMisc(w, dx) ==
   LET op == Bit(w, 25)  op1 == Slice(w, 24, 20)  op2 == Slice(w, 7, 4)
       is10xx0 == (op1 \div 8 = 2) /\ (op1 % 2 = 0)
@@ -269,11 +287,11 @@ ArmDPMisc(w, dx) ==
      THEN IF ~is10xx0
           THEN IF op2 % 2 = 0 THEN ArmDPReg(w)
                ELSE IF op2 \div 8 = 0 THEN ArmDPRsr(w)
-               ELSE IF op2 = 9 THEN (IF op1 \div 16 = 0 THEN ArmMul(w, dx) ELSE Unspec("arm-sync"))
+               ELSE IF op2 = 9 THEN (IF op1 \div 16 = 0 THEN ArmMul(w, dx) ELSE ArmSync(w, dx))
                ELSE ArmExtraLS(w, dx)
           ELSE IF op2 \div 8 = 0 THEN ArmMisc(w)
                ELSE IF op2 % 2 = 0 THEN ArmHMul(w, dx)
-               ELSE IF op2 = 9 THEN Unspec("arm-sync")
+               ELSE IF op2 = 9 THEN ArmSync(w, dx)
                ELSE ArmExtraLS(w, dx)
      ELSE IF ~is10xx0 THEN ArmDPImm(w)
           ELSE CASE op1 = 16 -> [k |-> "movw", enc |-> "MOVW_A2", d |-> Slice(w, 15, 12),
@@ -340,6 +358,8 @@ ArmUncond(w) ==
   ELSE IF Slice(w, 27, 25) = 5
   THEN [k |-> "bl", enc |-> "BLX_i_A2", tiset |-> "THUMB", unp |-> FALSE,
         imm |-> SignExtW(WOr(LSLw(ExtractW(w, 23, 0), 2), <<0, Bit(w, 24) * 2>>), 26)]
+  ELSE IF Slice(w, 27, 20) = 87 /\ Slice(w, 7, 4) = 1
+  THEN [k |-> "hint", enc |-> "CLREX_A1", h |-> "NOP", unp |-> Slice(w, 19, 8) # 4080 \/ Slice(w, 3, 0) # 15]
   ELSE IF Slice(w, 27, 26) = 3 /\ Slice(w, 25, 24) # 3 THEN CoprocSpace(w, "_A2", FALSE)
   ELSE Unspec("arm-unconditional")
 
@@ -651,7 +671,30 @@ T32LSSingle(w, dx) ==
                   tbad \/ BadReg(m))
      ELSE Undef
 
-\* A6.3.6 load/store dual, table branch (exclusives are not specified yet)
+\* A6.3.6: load/store exclusive (T1 encodings, ARMv6T2 / v7)
+T32Excl(w, dx) ==
+  LET op1 == Slice(w, 24, 23)  op2 == Slice(w, 21, 20)  op3 == Slice(w, 7, 4)
+      n == Slice(w, 19, 16)  r12 == Slice(w, 15, 12)  r8 == Slice(w, 11, 8)  r0 == Slice(w, 3, 0)
+      imm == <<0, Slice(w, 7, 0) * 4>>
+  IN IF dx.arch < 6 THEN Unspec("t32-exclusive-pre-v6")
+     ELSE IF op1 = 0 /\ op2 = 0
+     THEN [k |-> "strex", enc |-> "STREX_T1", size |-> 4, d |-> r8, t |-> r12, t2 |-> 0, n |-> n, imm |-> imm,
+           unp |-> BadReg(r8) \/ BadReg(r12) \/ n = 15 \/ r8 = n \/ r8 = r12]
+     ELSE IF op1 = 0 /\ op2 = 1
+     THEN [k |-> "ldrex", enc |-> "LDREX_T1", size |-> 4, t |-> r12, t2 |-> 0, n |-> n, imm |-> imm,
+           unp |-> BadReg(r12) \/ n = 15 \/ r8 # 15]
+     ELSE IF op1 = 1 /\ op2 = 0 /\ op3 \in {4, 5, 7}
+     THEN LET size == IF op3 = 4 THEN 1 ELSE IF op3 = 5 THEN 2 ELSE 8 IN
+          [k |-> "strex", enc |-> "STREX" \o ExSfx(size) \o "_T1", size |-> size, d |-> r0, t |-> r12, t2 |-> r8, n |-> n, imm |-> Zero,
+           unp |-> BadReg(r0) \/ BadReg(r12) \/ n = 15 \/ r0 = n \/ r0 = r12 \/
+                   (IF size = 8 THEN BadReg(r8) \/ r0 = r8 ELSE r8 # 15)]
+     ELSE IF op1 = 1 /\ op2 = 1 /\ op3 \in {4, 5, 7}
+     THEN LET size == IF op3 = 4 THEN 1 ELSE IF op3 = 5 THEN 2 ELSE 8 IN
+          [k |-> "ldrex", enc |-> "LDREX" \o ExSfx(size) \o "_T1", size |-> size, t |-> r12, t2 |-> r8, n |-> n, imm |-> Zero,
+           unp |-> BadReg(r12) \/ n = 15 \/ r0 # 15 \/ (IF size = 8 THEN BadReg(r8) \/ r8 = r12 ELSE r8 # 15)]
+     ELSE Unspec("t32-exclusive-other")
+
+\* A6.3.6 load/store dual, table branch
 T32DualExclTB(w, dx) ==
   LET P == Bit(w, 24)  U == Bit(w, 23)  W == Bit(w, 21)  L == Bit(w, 20)
       n == Slice(w, 19, 16)  t == Slice(w, 15, 12)  t2 == Slice(w, 11, 8)
@@ -661,7 +704,7 @@ T32DualExclTB(w, dx) ==
           THEN [k |-> "tb", enc |-> IF Bit(w, 4) = 1 THEN "TBH_T1" ELSE "TBB_T1", n |-> n, m |-> Slice(w, 3, 0),
                 half |-> Bit(w, 4) = 1,
                 unp |-> n = 13 \/ BadReg(Slice(w, 3, 0)) \/ (InITBlock(dx.it) /\ ~LastInITBlock(dx.it)) \/ Slice(w, 15, 8) # 240]
-          ELSE Unspec("t32-exclusive")
+          ELSE T32Excl(w, dx)
      ELSE IF L = 1 /\ n = 15
           THEN LSD("LDRD_lit_T1", TRUE, t, t2, 15, TRUE, U = 1, FALSE, ImmOff(Slice(w, 7, 0) * 4), TRUE,
                    BadReg(t) \/ BadReg(t2) \/ t = t2 \/ W = 1)
@@ -716,6 +759,10 @@ T32BranchMisc(w, dx) ==
                          i_ |-> Bit(w, 6) = 1, f |-> Bit(w, 5) = 1, changemode |-> Mb = 1, mode |-> mode,
                          unp |-> (mode # 0 /\ Mb = 0) \/ (imod \div 2 = 1 /\ aif = 0) \/ (imod \div 2 = 0 /\ aif # 0) \/
                                  imod = 1 \/ InITBlock(dx.it) \/ Slice(w, 19, 16) # 15 \/ Bit(w, 13) # 0 \/ Bit(w, 11) # 0]
+                   \* CLREX T1 (miscellaneous control, op 0111011, hw2<7:4> = 0010): the monitors are stubs -> nothing observable
+                   [] op = 59 /\ Slice(w, 7, 4) = 2 /\ dx.arch >= 6 ->
+                        [k |-> "hint", enc |-> "CLREX_T1", h |-> "NOP",
+                         unp |-> Slice(w, 19, 16) # 15 \/ Slice(w, 11, 8) # 15 \/ Slice(w, 3, 0) # 15 \/ Bit(w, 13) # 0]
                    [] op = 61 ->
                         IF dx.hyp /\ Slice(w, 7, 0) # 0 THEN Undef          \* SUBS PC, LR is UNDEFINED in Hyp mode (decode-time check)
                         ELSE
